@@ -1,10 +1,13 @@
 #!/bin/bash
 # Runs the repository's pinned test suite (guard OFF, i.e. no build tags) in DIR (default /repo)
-# and checks that all 131 stable tests of /root/.vp/BASELINE.json pass.
+# and checks that all 131 stable tests of /root/.vp/BASELINE.json pass. The suite contains an
+# unpinned, already failing service test that occasionally kills the test binary before the pinned
+# TestServiceConnectAuthError has run (fixed port 1883); such a run is repeated, up to 3 times.
 DIR=${1:-/repo}
 export GOFLAGS=-mod=mod GOPROXY=off GOSUMDB=off GOTOOLCHAIN=local
 unset GOWORK
 cd "$DIR" || exit 2
+for attempt in 1 2 3; do
 OUT=$(mktemp)
 go test -mod=mod -json -vet=off -count=1 -timeout 25m ./... > "$OUT" 2>/dev/null
 python3 - "$OUT" <<'PY'
@@ -19,8 +22,11 @@ for l in open(sys.argv[1]):
 bad=[t for t in base if res.get(t)!='pass']
 print("baseline: %d/%d stable tests pass"%(len(base)-len(bad),len(base)))
 for t in bad: print("  NOT PASSING:",t,res.get(t))
-sys.exit(1 if bad else 0)
+# only the known flaky no-result case is worth a retry
+sys.exit(0 if not bad else (3 if all(res.get(t) is None for t in bad) else 1))
 PY
 rc=$?
 rm -f "$OUT"
-exit $rc
+[ $rc -eq 3 ] || exit $rc
+done
+exit 1
